@@ -750,8 +750,10 @@ def act_bind(o):
                 out = jax.core.eval_jaxpr(jaxpr.jaxpr, jaxpr.consts, *leaves)
         except NotImplementedError as e:
             raise Skip("capture not implemented for this object") from e
+        except jax.errors.JAXTypeError as e:             # the class converts traced values (numpy()/bool()): not capture-compatible
+            raise Skip("not traceable: " + type(e).__name__) from e
         except TypeError as e:
-            if "not a valid JAX type" in str(e):
+            if "not a valid JAX type" in str(e) or "as an abstract array" in str(e):
                 raise Skip("argument is not a valid JAX type") from e
             raise
     finally:
